@@ -1,6 +1,6 @@
 (* C18 — proofs, part 1: lookups, the checker is the Prop, one eviction pass is valid. *)
 From Coq Require Import String List ZArith Bool Lia.
-From Verif Require Import C18.Model C18.Spec.
+From Verif Require Import C18.Model C18.Spec C18.Proofs_Vec.
 Import ListNotations.
 Open Scope Z_scope.
 
@@ -95,6 +95,7 @@ Section Pass.
       destruct (all_pos (snd st)) eqn:Ea; cbn [negb]; [|discriminate].
       destruct (find_pod pv (r_pods prod r)) as [p|] eqn:Ep; [|discriminate].
       destruct (pfilt_ok p) eqn:Ef; cbn [negb]; [|discriminate].
+      destruct (fit_ok c prod tbl p) eqn:Efit; cbn [negb]; [|discriminate].
       intros H. eapply vp_cons; eauto.
       + apply Z.eqb_eq. exact Ec.
       + apply is_nil_false. exact Et.
@@ -103,10 +104,10 @@ Section Pass.
   Lemma check_pass_complete prod st evs st' :
     valid_pass c tbl prod st evs st' -> check_pass c tbl prod evs st = (0, st').
   Proof.
-    induction 1 as [st|st x pv r p evs st' Hr Hc Ho Ht Ha Hp Hf Hv IH]; cbn [check_pass]; [reflexivity|].
+    induction 1 as [st|st x pv r p evs st' Hr Hc Ho Ht Ha Hp Hf Hfit Hv IH]; cbn [check_pass]; [reflexivity|].
     rewrite Hr. rewrite Hc, Z.eqb_refl. cbn [negb]. rewrite Ho. cbn [negb].
     apply is_nil_false in Ht. rewrite Ht. rewrite Ha. cbn [negb]. rewrite Hp, Hf. cbn [negb].
-    exact IH.
+    rewrite Hfit. cbn [negb]. exact IH.
   Qed.
 
   Lemma check_pass_code0 prod evs st : fst (check_pass c tbl prod evs st) = 0 ->
@@ -148,12 +149,12 @@ Section Pass.
     cdry c = false ->
     find_row (rid r) tbl = Some r -> rcls r = src_cls prod -> targets prod tbl <> [] ->
     forall ps st dm,
-      (forall p, In p ps -> find_pod (pid p) (r_pods prod r) = Some p) ->
+      (forall p, In p ps -> find_pod (pid p) (r_pods prod r) = Some p /\ fit_ok c prod tbl p = true) ->
       valid_pass c tbl prod st (fst (fst (evict_pods c prod r ps st dm)))
                               (snd (fst (evict_pods c prod r ps st dm))).
   Proof.
     intros Hd Hr Hc Ht. induction ps as [|p t IH]; intros st dm Hps; cbn [evict_pods]; [constructor|].
-    assert (forall q, In q t -> find_pod (pid q) (r_pods prod r) = Some q) as Hps'
+    assert (forall q, In q t -> find_pod (pid q) (r_pods prod r) = Some q /\ fit_ok c prod tbl q = true) as Hps'
       by (intros q Hq; apply Hps; right; exact Hq).
     destruct (node_over prod r st) eqn:Eo; cbn [negb]; [|constructor].
     destruct (all_pos (snd st)) eqn:Ea; cbn [negb]; [|constructor].
@@ -162,7 +163,8 @@ Section Pass.
     specialize (IH (apply_ev c (rid r) p st) dm Hps').
     destruct (evict_pods c prod r t (apply_ev c (rid r) p st) dm) as [[evs st'] dm'] eqn:E.
     cbn [fst snd] in *.
-    eapply vp_cons; eauto. apply Hps. left; reflexivity.
+    destruct (Hps p (or_introl eq_refl)) as [Hfp Hfit].
+    eapply vp_cons; eauto.
   Qed.
 
   (* the loop stops at once when the node is back under its high threshold or some headroom
@@ -193,7 +195,89 @@ Section Pass.
   Qed.
 
   Definition src_ok (prod : bool) (r : row) : Prop :=
-    find_row (rid r) tbl = Some r /\ rcls r = src_cls prod /\ NoDup (map pid (r_pods prod r)).
+    find_row (rid r) tbl = Some r /\ rcls r = src_cls prod /\ NoDup (map pid (r_pods prod r)) /\
+    (forall p, In p (r_pods prod r) -> 0 <= pcpu p /\ 0 <= pmem p).
+
+  (* ---------------------------------------------------------------- NodeFit reservations *)
+  (* what podFitsAnyNodeWithThreshold has reserved on a target is never below its measured usage *)
+  Definition resv_inv (prod : bool) (resv : umap) : Prop :=
+    forall t, In t (targets prod tbl) -> vle (r_use prod t) (uget (rid t) resv).
+
+  Hypothesis Hids : NoDup (map rid tbl).
+  Hypothesis Hdims : tbl_dims (dims c) tbl.
+
+  Lemma targets_in prod t : In t (targets prod tbl) -> In t tbl.
+  Proof.
+    unfold targets, prod_targets, node_targets. destruct prod; intros H; apply in_app_or in H;
+      destruct H as [H|H]; apply filter_In in H; apply H.
+  Qed.
+
+  Lemma r_use_length prod t : In t tbl -> length (r_use prod t) = dims c.
+  Proof. intros H. destruct (Hdims t H) as [H1 [H2 _]]. destruct prod; assumption. Qed.
+
+  Lemma resv_inv_init prod : resv_inv prod (init_umap prod tbl).
+  Proof.
+    intros t Ht. apply targets_in in Ht. rewrite uget_init, (find_row_in tbl t Hids Ht). apply vle_refl.
+  Qed.
+
+  Lemma fit_any_props prod p : 0 <= pcpu p -> 0 <= pmem p ->
+    forall ts resv, (forall t, In t ts -> In t (targets prod tbl)) -> resv_inv prod resv ->
+      resv_inv prod (snd (fit_any c prod p ts resv)) /\
+      (fst (fit_any c prod p ts resv) = true ->
+       existsb (fun t => negb (over (vadd (r_use prod t) (pfit c p)) (r_high prod t))) ts = true).
+  Proof.
+    intros N1 N2. destruct (pfit_props c p N1 N2) as [Q1 Q2].
+    induction ts as [|t ts IH]; intros resv Hsub Hinv; cbn [fit_any existsb fst snd].
+    - split; [exact Hinv|discriminate].
+    - assert (In t (targets prod tbl)) as Ht by (apply Hsub; left; reflexivity).
+      assert (forall t', In t' ts -> In t' (targets prod tbl)) as Hsub' by (intros t' H'; apply Hsub; right; exact H').
+      destruct (over (vadd (uget (rid t) resv) (pfit c p)) (r_high prod t)) eqn:Eo.
+      + destruct (IH resv Hsub' Hinv) as [I1 I2]. split; [exact I1|].
+        intros H. apply orb_true_iff. right. apply I2. exact H.
+      + cbn [fst snd]. pose proof (Hinv t Ht) as Hle. split.
+        * intros t2 Ht2. rewrite uget_uset. destruct (rid t =? rid t2) eqn:E; [|apply Hinv; exact Ht2].
+          apply Z.eqb_eq in E.
+          assert (t2 = t) as ->.
+          { pose proof (find_row_in tbl t Hids (targets_in prod t Ht)) as F1.
+            pose proof (find_row_in tbl t2 Hids (targets_in prod t2 Ht2)) as F2.
+            rewrite E in F1. congruence. }
+          eapply vle_trans; [exact Hle|]. apply vle_vadd_nonneg; [|exact Q1].
+          rewrite Q2, <- (vle_length _ _ Hle). symmetry. apply r_use_length. apply targets_in with prod. exact Ht.
+        * intros _. apply orb_true_iff. left. apply negb_true_iff.
+          destruct (over (vadd (r_use prod t) (pfit c p)) (r_high prod t)) eqn:Eo2; [|reflexivity].
+          rewrite (over_mono (r_high prod t) _ _ (vadd_vle_mono (pfit c p) _ _ Hle) Eo2) in Eo. discriminate.
+  Qed.
+
+  Lemma removable_props prod ps : forall resv,
+    (forall p, In p ps -> 0 <= pcpu p /\ 0 <= pmem p) -> resv_inv prod resv ->
+    resv_inv prod (snd (removable c prod (targets prod tbl) ps resv)) /\
+    forall p, In p (fst (removable c prod (targets prod tbl) ps resv)) ->
+      In p ps /\ fit_ok c prod tbl p = true.
+  Proof.
+    induction ps as [|a t IH]; intros resv Hnn Hinv; cbn [removable fst snd]; [split; [exact Hinv|intros p []]|].
+    assert (forall p, In p t -> 0 <= pcpu p /\ 0 <= pmem p) as Hnn' by (intros p H; apply Hnn; right; exact H).
+    assert (forall resv', resv_inv prod resv' ->
+              resv_inv prod (snd (removable c prod (targets prod tbl) t resv')) /\
+              forall p, In p (fst (removable c prod (targets prod tbl) t resv')) ->
+                In p (a :: t) /\ fit_ok c prod tbl p = true) as IH'.
+    { intros resv' H'. destruct (IH resv' Hnn' H') as [I1 I2]. split; [exact I1|].
+      intros p Hp. destruct (I2 p Hp). split; [right|]; assumption. }
+    destruct (pfilt_ok a); cbn [negb]; [|apply IH'; exact Hinv].
+    destruct (cfit c) eqn:Ef; cbn [negb].
+    - destruct (pmet a) eqn:Em; cbn [negb]; [|apply IH'; exact Hinv].
+      destruct (Hnn a (or_introl eq_refl)) as [N1 N2].
+      destruct (fit_any_props prod a N1 N2 (targets prod tbl) resv (fun t H => H) Hinv) as [F1 F2].
+      destruct (fit_any c prod a (targets prod tbl) resv) as [ok um1]. cbn [fst snd] in F1, F2.
+      destruct (IH' um1 F1) as [I1 I2].
+      destruct (removable c prod (targets prod tbl) t um1) as [l um']. cbn [fst snd] in *.
+      split; [exact I1|]. destruct ok; cbn [In]; [|exact I2].
+      intros p [<-|Hp]; [|apply I2; exact Hp].
+      split; [left; reflexivity|]. unfold fit_ok. rewrite Ef, Em, (F2 eq_refl). reflexivity.
+    - destruct (IH' resv Hinv) as [I1 I2].
+      destruct (removable c prod (targets prod tbl) t resv) as [l um']. cbn [fst snd In] in *.
+      split; [exact I1|]. intros p [<-|Hp]; [|apply I2; exact Hp].
+      split; [left; reflexivity|]. unfold fit_ok. rewrite Ef. reflexivity.
+  Qed.
 
   Lemma balance_pods_dry prod tg srcs : forall st resv dm,
     cdry c = true -> fst (fst (balance_pods c prod tg srcs st resv dm)) = [].
@@ -223,21 +307,23 @@ Section Pass.
 
   Lemma balance_pods_valid prod srcs :
     cdry c = false -> targets prod tbl <> [] ->
-    forall st resv dm, (forall r, In r srcs -> src_ok prod r) ->
+    forall st resv dm, (forall r, In r srcs -> src_ok prod r) -> resv_inv prod resv ->
       valid_pass c tbl prod st (fst (fst (balance_pods c prod (targets prod tbl) srcs st resv dm)))
                               (snd (fst (balance_pods c prod (targets prod tbl) srcs st resv dm))).
   Proof.
-    intros Hd Ht. induction srcs as [|r t IH]; intros st resv dm Hs; cbn [balance_pods]; [constructor|].
-    destruct (Hs r (or_introl eq_refl)) as [Hr [Hc Hnd]].
-    pose proof (removable_in prod (targets prod tbl) (r_pods prod r) resv) as Hrem.
+    intros Hd Ht. induction srcs as [|r t IH]; intros st resv dm Hs Hinv; cbn [balance_pods]; [constructor|].
+    destruct (Hs r (or_introl eq_refl)) as [Hr [Hc [Hnd Hnn]]].
+    destruct (removable_props prod (r_pods prod r) resv Hnn Hinv) as [Hinv1 Hrem].
     destruct (removable c prod (targets prod tbl) (r_pods prod r) resv) as [rem resv1].
-    cbn [fst] in Hrem.
-    assert (forall p, In p (sort_by pod_leb rem) -> find_pod (pid p) (r_pods prod r) = Some p) as Hps.
-    { intros p Hp. apply find_pod_in; [exact Hnd|]. apply Hrem. apply sort_by_in in Hp. exact Hp. }
+    cbn [fst snd] in Hrem, Hinv1.
+    assert (forall p, In p (sort_by pod_leb rem) ->
+              find_pod (pid p) (r_pods prod r) = Some p /\ fit_ok c prod tbl p = true) as Hps.
+    { intros p Hp. apply sort_by_in in Hp. destruct (Hrem p Hp) as [H1 H2].
+      split; [apply find_pod_in; assumption|exact H2]. }
     pose proof (evict_pods_valid prod r Hd Hr Hc Ht (sort_by pod_leb rem) st dm Hps) as H1.
     destruct (evict_pods c prod r (sort_by pod_leb rem) st dm) as [[evs1 st2] dm2].
     assert (forall r', In r' t -> src_ok prod r') as Hs' by (intros r' H'; apply Hs; right; exact H').
-    specialize (IH st2 resv1 dm2 Hs').
+    specialize (IH st2 resv1 dm2 Hs' Hinv1).
     destruct (balance_pods c prod (targets prod tbl) t st2 resv1 dm2) as [[evs2 st3] dm3].
     cbn [fst snd] in *. eapply valid_pass_app; eauto.
   Qed.
